@@ -29,7 +29,14 @@ SURPLUS = [("get_byte",), ("get_char",), ("get_short",), ("get_three",), ("get_i
            ("get_fixed_string", 3), ("get_fixed_encoded_string", 2), ("get_bytes", 4), ("get_fixed_string", 2, True)]
 
 
+
 def shards(tier, seed):
+    from vf import engine
+
+    return engine.with_interpreter_options(_plain_shards(tier, seed))
+
+
+def _plain_shards(tier, seed):
     if tier == "quick":
         return [{"n": 1500, "part": p} for p in range(16)] + [{"sweep": (lo, lo + 220), "part": 100 + lo} for lo in range(0, 2200, 220)]
     return [{"n": 15625, "part": p} for p in range(64)] + [{"sweep": (lo, lo + 1100), "part": 100 + lo} for lo in range(0, 13200, 1100)] + [{"sweep": (c - 3, c + 4), "part": 100 + c} for c in (16384, 32768, 65536)]
